@@ -96,7 +96,7 @@ pub fn c20(ctx: &Ctx) -> Report {
         (f32::MAX, 20.0, 1.0),
         (f32::INFINITY, 20.0, 1.0),
     ];
-    let depth: u32 = if ctx.tier.is_thorough() { 11 } else { 8 };
+    let depth: u32 = if ctx.tier.is_thorough() { 12 } else { 8 };
     let nscripts = 3u64.pow(depth);
     par_ranges(ctx, &mut rep, 12 * 4 * 3, 12 * 4 * 3, |_, lo, hi, lc| {
         for idx in lo..hi {
